@@ -202,8 +202,8 @@ class RF24MeshNoMaster(NetworkMixin):
                 count += 1
             return count
 
-        new_addr = None
         for contact in contacts:
+            new_addr = None
             # print("Requesting address from", oct(contact))
             self.frame_buf.header.to_node = contact
             self.frame_buf.header.from_node = NETWORK_DEFAULT_ADDR
